@@ -56,6 +56,10 @@ def run(ctx, res):
     from ..channelarith import rule_linear
     res.guard(rule_linear, prog, res)
     res.require_min("R-LIN", 15)
+    # the inductive cursor invariant, laps included (channelinduct.py)
+    from ..channelinduct import rule_induct
+    res.guard(rule_induct, prog, res)
+    res.require_min("R-INDUCT", 12)
     res.require_min("R-UNMAPPED-PRE", 2)
     res.require_min("R-STOP-SEQ", 5)
     res.require_min("R-PASSTHROUGH", 2)
